@@ -2,6 +2,7 @@ package hvxwire
 
 import (
 	"fmt"
+	"sort"
 	"strconv"
 	"strings"
 
@@ -132,7 +133,12 @@ func Mutations(r *hv.Rand, b []byte, hot []int, budget int) [][]byte {
 	for k := 0; k < 6 && len(b) > 0; k++ {
 		pos[r.Intn(len(b))] = true
 	}
+	var order []int
 	for p := range pos {
+		order = append(order, p)
+	}
+	sort.Ints(order) // map iteration order must not decide which random draw goes where
+	for _, p := range order {
 		for k := 0; k < 3; k++ {
 			x := cp()
 			nb := hv.Pick(r, boundaryBytes)
@@ -151,7 +157,6 @@ func Mutations(r *hv.Rand, b []byte, hot []int, budget int) [][]byte {
 	// junk appended (decoders must leave it unread)
 	add(append(cp(), r.Bytes(1+r.Intn(5))...))
 	add(append(cp(), b...))
-	// deterministic order is lost by the map: sort by content for reproducibility
 	sortBytes(out)
 	// sample down to the budget
 	for len(out) > budget {
